@@ -574,6 +574,9 @@ class Pit:
     def at(self, i, c):
         return self.f(i, c)
 
+    def snapshot_f(self):
+        return self.f
+
     def set_col(self, c, elemf):
         old = self.f
 
@@ -585,6 +588,61 @@ class Pit:
 
     def __repr__(self):
         return "Pit(%s,%s)" % (self.name or "?", self.n)
+
+
+class PitSlice(Pit):
+    """live view pit[lo:hi, :] (rows lo..hi-1 of the base pit); stores write through"""
+
+    def __init__(self, base, lo, hi):
+        self.base = base
+        self.lo = lo
+        self.hi = hi
+        self.ncols = base.ncols
+        self.name = (base.name or "?") + "[lo:hi]"
+
+    @property
+    def n(self):
+        return arith("-", self.hi, self.lo)
+
+    def f(self, i, c):
+        return self.base.f(arith("+", i, self.lo), c)
+
+    def at(self, i, c):
+        return self.f(i, c)
+
+    def snapshot_f(self):
+        b0, lo = self.base.snapshot_f(), self.lo
+        return lambda i, c: b0(arith("+", i, lo), c)
+
+    def set_col(self, c, elemf):
+        base, lo, hi = self.base, self.lo, self.hi
+        old = base.snapshot_f()
+
+        def f(i, cc, _c=c, _e=elemf, _old=old):
+            inside = band(compare(">=", i, lo), compare("<", i, hi))
+            if not is_z3(cc) and not is_z3(_c):
+                if cc != _c:
+                    return _old(i, cc)
+                return ite(inside, _e(arith("-", i, lo)), _old(i, cc))
+            return ite(band(compare("==", cc, _c), inside), _e(arith("-", i, lo)), _old(i, cc))
+        base.f = f
+
+
+class PitComp:
+    """pit[mask] (row selection by a boolean mask): elementwise operations on its columns stay
+    aligned with arrays compressed by the same mask; f is defined on the base row domain"""
+
+    def __init__(self, base, mask):
+        self.base = base
+        self.mask = mask
+        self.ncols = base.ncols
+
+    @property
+    def n(self):
+        return Count(self.mask)
+
+    def f(self, i, c):
+        return self.base.f(i, c)
 
 
 class ColView:
@@ -606,7 +664,7 @@ class ColView:
         return self.pit.at(j, self.c)
 
     def snapshot(self):
-        f0 = self.pit.f
+        f0 = self.pit.snapshot_f()
         c = self.c
         return Arr(self.pit.n, lambda j: f0(j, c), "f")
 
